@@ -33,6 +33,13 @@ func c09defPoint(f *core.FuncInfo, v *types.Var, d ast.Expr) (core.Point, bool) 
 // not looked into, like resolveLocal). Expressions containing calls are never stable (a call may
 // yield something else the next time).
 func c09stable(f *core.FuncInfo, d ast.Expr, from, at core.Point, hasAt bool) bool {
+	return c09stableAt(f, d, from, at, hasAt, false)
+}
+
+// c09stableAt is c09stable with one more piece of knowledge: with rhsUse the use is the right-hand side
+// of the plain assignment statement at `at` (`x.f = local`), which is evaluated before that statement
+// stores anything — a store made by the using statement itself does not disturb the value read.
+func c09stableAt(f *core.FuncInfo, d ast.Expr, from, at core.Point, hasAt, rhsUse bool) bool {
 	vars := map[*types.Var]bool{}
 	fields := map[string]bool{}
 	hasCall := false
@@ -95,6 +102,11 @@ func c09stable(f *core.FuncInfo, d ast.Expr, from, at core.Point, hasAt bool) bo
 			return false
 		}
 		if a.Pt == at && a.Pt != from {
+			if rhsUse {
+				if as, isAs := a.Stmt.(*ast.AssignStmt); isAs && as.Tok == token.ASSIGN && !f.CanReach(at, at) {
+					continue // the statement reads its right-hand side first, and is not passed again
+				}
+			}
 			return false // stored in the statement that uses it: order within the statement is not decided
 		}
 		if _, reach := (core.PathQuery{F: f, From: a.Pt, FromAfter: true, Target: core.PointSet(at), Avoid: core.PointSet(from)}).Find(); reach {
